@@ -255,6 +255,8 @@ class Renderer(object):
             self.emit(quote(v["v"], v["q"], self.rawnl, v.get("esc")))
         elif t == "ustr":
             self.emit(v["v"])
+        elif t == "raw":
+            self.emit(v["text"])        # text given verbatim (e.g. a quoted Windows path written with single backslashes)
         elif t == "list":
             self.emit("[")
             for i, it in enumerate(v["items"]):
